@@ -45,6 +45,9 @@ def J(cfg, *args, shards=16, **kw):
 
 
 RANDOM_NS = "0,1,2,3,5,8,16,61,1000"
+# threshold- and power-of-two-dependent paths: only in the random histories (instantiating the sweeps
+# for these would cost minutes of build time)
+RANDOM_NS_BIG = "31,32,33,64,127,128,255,256,257"
 
 
 def sweep_jobs(tier, wide=True, rel=True):
@@ -66,6 +69,7 @@ def random_jobs(tier, cfgs=("dbg", "rel")):
     out = []
     for c in cfgs:
         out.append(J(c, "random", "--n", RANDOM_NS, "--ops", ops, "--emit-distinct", "1", count_distinct=(c == cfgs[0])))
+    out.append(J(cfgs[-1], "random", "--n", RANDOM_NS_BIG, "--ops", ops // 2, "--emit-distinct", "1"))
     out.append(J("dbg", "random", "--n", "0,1,2,5,16,61", "--ops", ops // 2, "--elem", "wide", "--emit-distinct", "1", shards=8))
     out.append(J("rel", "random", "--n", "0,1,3,8,16,61", "--ops", ops // 2, "--elem", "nodrop", "--emit-distinct", "1", shards=8))
     return out
@@ -268,7 +272,7 @@ def io_jobs(cfg, tier, count=True):
         J(cfg, "io", "--n", ns(0, 3), "--depth", d, count_distinct=count),
         J(cfg, "io", "--n", "4,5", "--depth", d - 1, count_distinct=count),
         J(cfg, "io", "--n", "8,16", "--depth", 2, count_distinct=count),
-        J(cfg, "io_random", "--n", "5,16,61,1000", "--ops", 4000 if tier == "quick" else 200000, "--emit-distinct", "1", count_distinct=count),
+        J(cfg, "io_random", "--n", "5,16,32,61,255,256,257,1000", "--ops", 4000 if tier == "quick" else 200000, "--emit-distinct", "1", count_distinct=count),
     ]
 
 PROPS["C14"] = {
@@ -444,6 +448,7 @@ def random_fault_jobs(tier):
     ops = 3000 if tier == "quick" else 80000
     return [S("dbg", "random", "--n", RANDOM_NS, "--ops", ops, "--faults", 1, "--emit-distinct", 1),
             S("rel", "random", "--n", RANDOM_NS, "--ops", ops, "--faults", 1, "--emit-distinct", 1),
+            S("rel", "random", "--n", RANDOM_NS_BIG, "--ops", ops // 2, "--faults", 1, "--emit-distinct", 1),
             S("dbg", "random", "--n", "1,2,3,5,16", "--ops", ops, "--faults", 1, "--elem", "wide", "--emit-distinct", 1, shards=8),
             S("asan", "random", "--n", "0,1,2,3,5,8,16,61", "--ops", ops, "--faults", 1, "--emit-distinct", 1)]
 
